@@ -38,12 +38,17 @@ Ltac c13_unfold :=
      normalize gammatone_A gammatone_den slaney_coeff slaney_section gammatone_slaney
      gammatone_klapuri padd pscale pmul pddz_from pddz mul_negz sampled_step sampled_iter
      sampled_num gammatone_sampled erb_constant_x erb_constant_y
-     INR fact Nat.mul Nat.add Nat.sub].
+     INR Nat.mul Nat.add Nat.sub].
 
 Ltac c13_nz :=
   first [ apply Rgt_not_eq; interval with (i_prec 100)
         | apply Rlt_not_eq; interval with (i_prec 100) ].
-Ltac c13_prep := c13_unfold; repeat (rewrite z_denR_nz by c13_nz).
+(* factorials (gammatone_erb_constants) are computed in Z by the VM, never in unary nat *)
+Ltac c13_zfact :=
+  repeat match goal with
+  | |- context [Zfact ?k] => let v := eval vm_compute in (Zfact k) in change (Zfact k) with v
+  end.
+Ltac c13_prep := c13_unfold; c13_zfact; repeat (rewrite z_denR_nz by c13_nz).
 Ltac c13_enclose := c13_prep; interval with (i_prec 100).
 
 (* one generated goal: try the enclosure, then its refutation; never fails.  The messages are
